@@ -62,6 +62,7 @@ def project(ml, owner, rule):
 
 
 RAISE = [True]
+VIAQUERY = [False]
 
 
 def make(owner):
@@ -108,6 +109,10 @@ def apply(ml, a, k):
     if op == "delete":
         return outcome(lambda: ml.deleteMedium(a["q"]))
     if op == "setitem":
+        if VIAQUERY[0] and a["q"] in BAD_TEXTS:
+            # variant: the malformed text is assigned to the QUERY OBJECT taken out of the list (its own mediaText setter)
+            mqs = [getattr(it, "value", it) for it in ml]
+            return outcome(lambda: setattr(mqs[a["i"] - 1], "mediaText", qtext(a["q"], k)))
         return outcome(lambda: ml.__setitem__(a["i"] - 1, qtext(a["q"], k)))
     raise ValueError(op)
 
@@ -116,6 +121,7 @@ def run_trace(item):
     init()
     owner = item.get("owner", "none")
     mode = item.get("mode", "raise")
+    VIAQUERY[0] = bool(item.get("viaquery"))
     ml, rule = make(owner)
     cssutils.log.raiseExceptions = RAISE[0] = (mode == "raise")
     tr = {"id": item["id"], "owner": owner, "init": project(ml, owner, rule), "steps": []}
